@@ -83,6 +83,11 @@ def gen_cases(tier, seed):
             pre.append({"p": "dst", "k": "d"})
             args = args[:-2] + [nodes[0]["p"], "zlast", "dst"]
             dstp = "dst/" + nodes[0]["p"]
+            if r.random() < 0.4:
+                # the node is named twice: whatever is done about the repetition, it is not a reason to open the node
+                args = args[:-1] + [nodes[0]["p"], "dst"]
+        elif not sole and prior not in ("fresh", "dir") and not noclobber and r.random() < 0.15:
+            args = args[:-2] + ["src", "src", "dst"]
         # now and then the node cannot be created (mknod refused: no CAP_MKNOD, immutable directory, unsupported by the file system):
         # exit 0 must still mean that every node is there
         refuse = r.choice([1, 1, 13, 28, 95, 38]) if (not hasblk and prior != "dir" and r.random() < 0.12) else None
